@@ -80,8 +80,7 @@ CLAIMS["C08"] = {
     "note": "Assumed, not decided: that shuffle draws every permutation with equal probability and that the final shuffle + first is a uniform pick among the survivors — i.e. the probability "
             "sentence of C08 rests on rand's contract; what is proved is that the only randomness is those two shuffles and that everything between them is the deterministic filter. "
             "Trusted: vx_shuffle stand-in (permutation, function of the stream state), Option::copied, vstd's Vec / slice / for-loop models. Precondition: the result type's order is a "
-            "lawful total order. 'That very element' (pointer identity) is Kani's C06 harnesses; here the result is value-equal to population[i]. The Pareto-domination consequence is argued "
-            "in DESIGN.md, not machine-checked.",
+            "lawful total order. 'That very element' (pointer identity) is Kani's C06 harnesses; here the result is value-equal to population[i]. The Pareto consequence is machine-checked as lemma_never_dominated over lex_run (when every individual has every considered case).",
     "design_ref": "DESIGN.md §6 C08, §12",
 }
 KANI_TECH = "bounded stand-in: Kani/CBMC harnesses on the real compiled crates, symbolic random stream, cover! witnesses for 'can occur' clauses, counterexamples replayed on the stable toolchain"
@@ -170,7 +169,7 @@ CLAIMS["C18"] = kclaim(
     "last member reachable.",
     note=KANI_NOTE + " Equal probability of members is rand's Uniform<usize> / Choose contract (assumed).")
 # checks that exist but are not yet validated on the unchanged tree are not claimed
-PENDING = {"C11", "C12", "C18", "C19"}
+PENDING = set()
 NOT_APPLICABLE = {
     "C08_old": "Kani cannot carry Lexicase::select beyond ONE considered case (out of memory at two), which decides nothing about filtering by randomly ORDERED cases; the Verus proof sketched in DESIGN.md §6 (loop invariants over the candidate set, shuffle as an assumed permutation contract) has not been completed. What is checked about lexicase (membership, errors, single-case filtering, tie reachability) is claimed under C06 only (DESIGN.md §13).",
     "C11": "check being validated in this session (Kani harnesses exist: kani/src/c11.rs)",
@@ -187,3 +186,19 @@ for _p in ("C13", "C14", "C15"):
 for _p in ("C01", "C02", "C03"):
     CLAIMS[_p]["technique"] += "; bounded Kani pairing harnesses on a lean state as fallback / counterexample generator (DESIGN §12.3)"
     CLAIMS[_p]["note"] += " The Kani pairing harnesses (kani/src/c01.rs) are bounded (depths, representative operands for * / % pow) and listed under `bounded`, never counted as discharged."
+
+CLAIMS["C19"] = {
+    "category": "proof", "engine": "verus",
+    "technique": "Verus contracts on the macro-generated builder (bodies taken from the macro expansion of the real crate) + rustc's trait solver on must-fail / must-compile snippets for the type-state preconditions + Kani on the real compiled builder",
+    "text": "Run-time part (Verus, all values / sizes / call orders the type-state permits, from any partial state): with_max_stack_size sets every stack's maximum and nothing else; "
+            "with_<stack>_max_size sets exactly that stack's; with_<stack>_values / with_program put the supplied values on the named stack with the FIRST supplied on top (first "
+            "program element executes first) or report Overflow when they do not fit; with_<stack>_input inserts name -> literal into the input map (a lemma shows declaration order "
+            "is irrelevant for distinct names); with_instruction_step_limit sets the limit; build returns exactly the assembled state. Compile-time part: nine illegal call sequences "
+            "(build without sizes / program decision / step limit; values or program before sizes; resizing after values or after the program decision) are each rejected with E0599 on "
+            "the expected method, and the legal orders type-check. Kani: the compiled builder on the real PushState (sizes for all usize, value loading, generated accessors address "
+            "the field of their element type).",
+    "note": "Trusted: push_many's contract (checked bounded by the Kani harness c04_bulk), HashMap::insert as a map keyed by name equality, VariableName::from / PushInstruction::push_* as "
+            "uninterpreted constructors; value / program parameters instantiated at Vec<_>. Not covered: a second state struct with renamed stacks (E0119 makes #[push_state] unusable outside "
+            "the push crate; the hook of DESIGN §8 was not built), PushState::builder()'s Default state.",
+    "design_ref": "DESIGN.md §6 C19, §13",
+}
